@@ -21,6 +21,49 @@ NOTES = ('All checks run the real cardutil code from /repo\'s working tree (PYTH
 _PENDING = 'check not built yet in this session (planned: DESIGN.md section 4); not claimed until it exists'
 
 CHECKS = [
+    {'id': 'C01', 'engine': 'E2-choice', 'level': 'exploration', 'design_ref': 'DESIGN.md 4/C01',
+     'technique': 'bounded exhaustive enumeration (every element x every length/value variant, all element pairs, '
+                  'structured long messages) of the real dumps/loads with a round-trip oracle',
+     'text': 'Every configured element alone at every admissible length (1..99 / 1..999) and value variant, every '
+             'pair of elements at boundary variants, and long-message families are executed through the real '
+             'dumps/loads for the packaged and generated configurations (every bit carries every field kind over '
+             'the 14 shifts), ASCII- and EBCDIC-family codecs and both bitmap renderings. Exhaustive within the '
+             'stated families, which cover each way a field rendering or a neighbour boundary can go wrong.',
+     'note': 'Subsets beyond singles, pairs and the long families are not enumerated. Domain exclusions listed in '
+             'the evidence assumptions.'},
+    {'id': 'C02', 'engine': 'E2-choice', 'level': 'exploration', 'design_ref': 'DESIGN.md 4/C02',
+     'technique': 'bounded exhaustive enumeration of messages compared byte-for-byte and key-for-key with an '
+                  'independent reference codec (conformance of implementation to a model, all cases replayed on the '
+                  'implementation)',
+     'text': 'Same enumerated families as C01 plus short fixed values and over-length variable values; dumps must be '
+             'byte-identical to the reference encoder, loads key-for-key equal to the reference decoder, over-length '
+             'values refused. Catches symmetric errors a round trip cannot see.',
+     'note': 'Trusts vf/ref/iso_ref.py (written from the docs, self-checked on the documented examples).'},
+    {'id': 'C03', 'engine': 'E2-choice', 'level': 'exploration', 'design_ref': 'DESIGN.md 4/C03',
+     'technique': 'bounded exhaustive enumeration of record lists (every single length 1..6000, all pairs/triples '
+                  'over a boundary alphabet) through the real writer/reader vs reference framing',
+     'text': 'Every record length 1..6000 as a single-record file, all ordered pairs over a 39-length and triples '
+             'over a 12-length block-boundary alphabet, long runs, five content codings, three APIs, blocked and '
+             'unblocked, several configured maxima: file bytes must equal the reference framing exactly and read '
+             'back equal.',
+     'note': 'Trusts vbs_ref/blk_ref. Lists longer than 3 records only as stated runs (thorough adds 4-tuples).'},
+    {'id': 'C09', 'engine': 'E4-faults', 'level': 'fault_enumeration', 'design_ref': 'DESIGN.md 4/C09',
+     'technique': 'exhaustive crash-point enumeration: every truncation offset of every file of a boundary family, '
+                  'executed on the real readers',
+     'text': 'For ~190 generated VBS / blocked / IPM files (record lengths around block boundaries, fill- and '
+             'terminator-like content) every truncation offset 0..len(file) is executed; the reader must deliver '
+             'exactly the records wholly contained in the surviving payload and then stop or raise the library '
+             'error.',
+     'note': 'Expected set computed by the reference parser on the surviving payload.'},
+    {'id': 'C11', 'engine': 'E1-bfs', 'level': 'model_checking', 'design_ref': 'DESIGN.md 4/C11',
+     'technique': 'explicit-state BFS over writer lifecycle histories (write* then close/exit sequences) on the real '
+                  'VbsWriter/IpmWriter, BytesIO and real files',
+     'text': 'All histories write^<=3 (4 record sizes incl. block-boundary ones) followed by up to 3 finalisations '
+             'from {close, exit, exit-with-exception} for both writers, both formats, three file kinds; states '
+             'deduplicated on file digest + all writer/blocker attributes; after every finalisation the file must '
+             'read back (reference parser and real reader) as exactly the records written and later finalisations '
+             'must not change a byte.',
+     'note': 'Writes after finalisation are outside the statement. Thorough: 4 writes / 4 finalisations.'},
     {'id': 'C04', 'engine': 'E1-bfs', 'level': 'model_checking', 'design_ref': 'DESIGN.md 4/C04',
      'technique': 'explicit-state BFS over the real Block1014 object: all 1013 abstract states x every write size, '
                   'finalised output compared with a reference blocker',
